@@ -68,6 +68,15 @@ class sink(Sink):
     def update(self, x, who=None, metadata=None):
         result = self.func(x, *self.args, **self.kwargs)
         if gen.isawaitable(result):
+            if metadata:
+                # hold the references until the awaitable has finished
+                self._retain_refs(metadata)
+                result = gen.convert_yielded(result)
+
+                def release(future):
+                    if not future.cancelled() and future.exception() is None:
+                        self._release_refs(metadata)
+                result.add_done_callback(release)
             return result
         else:
             return []
